@@ -696,3 +696,40 @@ pub fn shrink(g: &Gram, mut fails: impl FnMut(&Gram) -> bool, max_steps: usize) 
     }
     cur
 }
+
+/// Workload (c): a repository grammar combined with a generated tie-oriented sub-grammar.
+/// The start symbol becomes `VerifMixStart: <old start> | "verif_mix" VmN0;` and the generated
+/// rules (renamed with the prefix `Vm`, INITIAL scanner only, no declarations) are appended.
+pub fn mix_with_corpus(corpus_text: &str, g: &Gram) -> Option<String> {
+    let at = corpus_text.find("%start")?;
+    let rest = &corpus_text[at + 6..];
+    let ws = rest.len() - rest.trim_start().len();
+    let ident: String = rest[ws..].chars().take_while(|c| c.is_alphanumeric() || *c == '_').collect();
+    if ident.is_empty() || !corpus_text.contains("%%") {
+        return None;
+    }
+    let mut h = g.clone();
+    h.decls.clear();
+    h.scanners.clear();
+    h.initial_transitions.clear();
+    h.lalr = false;
+    for t in h.terminals.iter_mut() {
+        t.states.clear();
+        t.text = format!("vm_{}", t.text);
+    }
+    for r in h.rules.iter_mut() {
+        r.name = format!("Vm{}", r.name);
+    }
+    let rendered = render(&h);
+    let rules = rendered.split("%%\n\n").nth(1)?.to_string();
+    let mut out = String::new();
+    out.push_str(&corpus_text[..at]);
+    out.push_str("%start VerifMixStart");
+    out.push_str(&rest[ws + ident.len()..]);
+    if !out.ends_with('\n') {
+        out.push('\n');
+    }
+    out.push_str(&format!("\nVerifMixStart: {ident} | \"verif_mix\" {};\n", h.rules[0].name));
+    out.push_str(&rules);
+    Some(out)
+}
